@@ -116,9 +116,10 @@ def scratch_rule(ctx, r, entry):
         for n in walk_no_nested(f.node):
             if is_self_attr(n) and isinstance(getattr(n, "ctx", None), ast.Store):
                 scratch.setdefault(n.attr, []).append((f, n))
+        al_ = q.alias_roots(f)  # `tbl = self._tbl; tbl[k] = v` writes into self._tbl
         for c in q.calls(f):
             if isinstance(c.func, ast.Attribute) and c.func.attr in q.MUTATORS:
-                a = q.self_attr_root(c.func.value)
+                a = q.root_in(f, c.func.value, al_)
                 if a is not None:
                     scratch.setdefault(a, []).append((f, c))
         for n in walk_no_nested(f.node):
@@ -126,7 +127,7 @@ def scratch_rule(ctx, r, entry):
                 tgts = n.targets if not isinstance(n, ast.AugAssign) else [n.target]
                 for t in tgts:
                     if isinstance(t, ast.Subscript):
-                        a = q.self_attr_root(t)
+                        a = q.root_in(f, t, al_)
                         if a is not None:
                             scratch.setdefault(a, []).append((f, n))
     if not scratch:
